@@ -13,16 +13,90 @@ open Larking Larking.Lexer Larking.Trie
 theorem translator_complete : Gen.missing = [] := by decide
 
 theorem skeleton_unchanged :
-    (Gen.Skel.conds_variable_index, Gen.Skel.conds_path_search, Gen.Skel.conds_path_addVariable,
-     Gen.Skel.conds_path_addPath, Gen.Skel.conds_lexTemplate, Gen.Skel.conds_lexSegments,
-     Gen.Skel.conds_lexSegment, Gen.Skel.conds_lexVariable, Gen.Skel.conds_lexFieldPath,
-     Gen.Skel.conds_lexVerb, Gen.Skel.conds_lexIdent, Gen.Skel.conds_lexLiteral,
-     Gen.Skel.conds_isIdent, Gen.Skel.conds_isLiteral, Gen.Skel.conds_isPath)
-  = (Expected.C02.conds_variable_index, Expected.C02.conds_path_search, Expected.C02.conds_path_addVariable,
-     Expected.C02.conds_path_addPath, Expected.C02.conds_lexTemplate, Expected.C02.conds_lexSegments,
-     Expected.C02.conds_lexSegment, Expected.C02.conds_lexVariable, Expected.C02.conds_lexFieldPath,
-     Expected.C02.conds_lexVerb, Expected.C02.conds_lexIdent, Expected.C02.conds_lexLiteral,
-     Expected.C02.conds_isIdent, Expected.C02.conds_isLiteral, Expected.C02.conds_isPath) := rfl
+    (Gen.Skel.conds_variable_index,
+     Gen.Skel.stmts_variable_index,
+     Gen.Skel.conds_path_search,
+     Gen.Skel.stmts_path_search,
+     Gen.Skel.conds_path_match,
+     Gen.Skel.stmts_path_match,
+     Gen.Skel.conds_path_addVariable,
+     Gen.Skel.stmts_path_addVariable,
+     Gen.Skel.conds_path_addPath,
+     Gen.Skel.stmts_path_addPath,
+     Gen.Skel.conds_lexTemplate,
+     Gen.Skel.stmts_lexTemplate,
+     Gen.Skel.conds_lexSegments,
+     Gen.Skel.stmts_lexSegments,
+     Gen.Skel.conds_lexSegment,
+     Gen.Skel.stmts_lexSegment,
+     Gen.Skel.conds_lexVariable,
+     Gen.Skel.stmts_lexVariable,
+     Gen.Skel.conds_lexFieldPath,
+     Gen.Skel.stmts_lexFieldPath,
+     Gen.Skel.conds_lexVerb,
+     Gen.Skel.stmts_lexVerb,
+     Gen.Skel.conds_lexIdent,
+     Gen.Skel.stmts_lexIdent,
+     Gen.Skel.conds_lexLiteral,
+     Gen.Skel.stmts_lexLiteral,
+     Gen.Skel.conds_isIdent,
+     Gen.Skel.stmts_isIdent,
+     Gen.Skel.conds_isLiteral,
+     Gen.Skel.stmts_isLiteral,
+     Gen.Skel.conds_isPath,
+     Gen.Skel.stmts_isPath,
+     Gen.Skel.conds_Mux_match,
+     Gen.Skel.stmts_Mux_match,
+     Gen.Skel.conds_Mux_ServeHTTP,
+     Gen.Skel.stmts_Mux_ServeHTTP,
+     Gen.Skel.conds_path_clone,
+     Gen.Skel.stmts_path_clone,
+     Gen.Skel.conds_lexPath,
+     Gen.Skel.stmts_lexPath,
+     Gen.Skel.conds_lexPathSegment,
+     Gen.Skel.stmts_lexPathSegment)
+  = (Expected.C02.conds_variable_index,
+     Expected.C02.stmts_variable_index,
+     Expected.C02.conds_path_search,
+     Expected.C02.stmts_path_search,
+     Expected.C02.conds_path_match,
+     Expected.C02.stmts_path_match,
+     Expected.C02.conds_path_addVariable,
+     Expected.C02.stmts_path_addVariable,
+     Expected.C02.conds_path_addPath,
+     Expected.C02.stmts_path_addPath,
+     Expected.C02.conds_lexTemplate,
+     Expected.C02.stmts_lexTemplate,
+     Expected.C02.conds_lexSegments,
+     Expected.C02.stmts_lexSegments,
+     Expected.C02.conds_lexSegment,
+     Expected.C02.stmts_lexSegment,
+     Expected.C02.conds_lexVariable,
+     Expected.C02.stmts_lexVariable,
+     Expected.C02.conds_lexFieldPath,
+     Expected.C02.stmts_lexFieldPath,
+     Expected.C02.conds_lexVerb,
+     Expected.C02.stmts_lexVerb,
+     Expected.C02.conds_lexIdent,
+     Expected.C02.stmts_lexIdent,
+     Expected.C02.conds_lexLiteral,
+     Expected.C02.stmts_lexLiteral,
+     Expected.C02.conds_isIdent,
+     Expected.C02.stmts_isIdent,
+     Expected.C02.conds_isLiteral,
+     Expected.C02.stmts_isLiteral,
+     Expected.C02.conds_isPath,
+     Expected.C02.stmts_isPath,
+     Expected.C02.conds_Mux_match,
+     Expected.C02.stmts_Mux_match,
+     Expected.C02.conds_Mux_ServeHTTP,
+     Expected.C02.stmts_Mux_ServeHTTP,
+     Expected.C02.conds_path_clone,
+     Expected.C02.stmts_path_clone,
+     Expected.C02.conds_lexPath,
+     Expected.C02.stmts_lexPath,
+     Expected.C02.conds_lexPathSegment,
+     Expected.C02.stmts_lexPathSegment) := rfl
 
 /-- **Completeness.** For every accepted list of rules: whenever some way through the trie
 matches the request's tokens for the request's verb (that is what a registered rule matching
